@@ -78,13 +78,17 @@ def rule_vm_merge(F, rep):
     if len(mc) == 1:
         a, b = g.origins(mc[0].args[0]), g.origins(mc[0].args[1])
         ok = "call:into" in a and "call:into" in b and "field:id" in a and "field:id" in b
+        # ... and the two arguments are the two *different* members of the pair, in order
+        ok = ok and "field:0" in a and "field:1" not in a and "field:1" in b and "field:0" not in b
         ag = [s for s in g.stmts() if s.rv_kind() == "agg" and s.rv[1].get("adt", "").endswith("protocol::VmProtocol")]
         if ok and ag:
             flds = ag[0].rv[1]["fields"]
             ido = g.origins(ag[0].operands()[flds.index("id")], through_calls=())
             ok = "call:merge_cmd_id" in ido
     rep.check(ok, "VmPolicy::merge|id-from-ordered-parents", "K6 provenance",
-              "the merge command id is merge_cmd_id(left.id, right.id) with (left, right) taken from the ordered MergeIds", site=g.site())
+              "the merge command id is merge_cmd_id(left.id, right.id) with (left, right) the first and second member of the ordered MergeIds",
+              "VmPolicy::merge does not derive the merge id from both parents in order (merge_cmd_id's arguments must be the .0 and the .1 member's id of the ordered pair): "
+              "two different head sets can then advertise the same hello head", site=g.site())
 
 
 def rule_strand_order(F, rep):
